@@ -31,7 +31,10 @@ RULE = ('one run = one seeded FileStorage history (commits, aborts at every '
         'point where a commit returned, additionally the image in which '
         'all data-file writes not yet followed by an fsync are lost; for '
         'the deep subset also the image whose index file (renamed into '
-        'place without an fsync of its contents) is empty or cut short')
+        'place without an fsync of its contents) is empty or cut short; '
+        'after each appending data-file write also the images in which '
+        'the file length is on disk before the data (zeros from the synced '
+        'length, a block boundary, a random point or inside the header)')
 BUDGET = {'quick': {'runs': 3000, 'wall': 300, 'chunk': 10},
           'thorough': {'runs': 30000, 'wall': 2400, 'chunk': 10}}
 ASSUMPTIONS = [
